@@ -87,9 +87,46 @@ func httpHandlerClosures(p *core.Prog) []handlerClosure {
 	return out
 }
 
+// typeFuncs returns the functions that make up type nt's behaviour: its
+// declared methods and the package functions that take it as their first
+// parameter (methods written as functions, core.RecvName).
+func typeFuncs(p *core.Prog, nt *types.Named) []*ssa.Function {
+	var out []*ssa.Function
+	seen := map[*ssa.Function]bool{}
+	for i := 0; i < nt.NumMethods(); i++ {
+		if fn := p.SSA.FuncValue(nt.Method(i)); fn != nil && fn.Blocks != nil {
+			out = append(out, fn)
+			seen[fn] = true
+		}
+	}
+	for _, fn := range p.LibFuncs(pkgSuffixOf(nt)) {
+		if !seen[fn] && fn.Parent() == nil && core.RecvName(fn) == core.NamedOf(nt) {
+			out = append(out, fn)
+		}
+	}
+	return out
+}
+
 // declaredMethod returns the method name declared directly on nt (not
 // promoted), or nil.
 func declaredMethod(p *core.Prog, nt *types.Named, name string) *ssa.Function {
+	if m := declaredMethodOn(p, nt, name); m != nil {
+		return m
+	}
+	// a method declared on a part of nt (core.PartOf) is nt's own
+	for part, owner := range core.PartOf {
+		if owner == nt.Obj() {
+			if pn, ok := part.Type().(*types.Named); ok {
+				if m := declaredMethod(p, pn, name); m != nil {
+					return m
+				}
+			}
+		}
+	}
+	return nil
+}
+
+func declaredMethodOn(p *core.Prog, nt *types.Named, name string) *ssa.Function {
 	for i := 0; i < nt.NumMethods(); i++ {
 		m := nt.Method(i)
 		if a, ok := core.FuncAlias[m]; ok {
@@ -203,6 +240,21 @@ func isForwardingWrapper(p *core.Prog, nt *types.Named, iface types.Type) bool {
 	return n > 0
 }
 
+// isStreamTypeName: name names a library type implementing grpc.ClientStream or grpc.ServerStream.
+func isStreamTypeName(p *core.Prog, name string) bool {
+	if name == "" {
+		return false
+	}
+	for _, iface := range []string{"ClientStream", "ServerStream"} {
+		for _, nt := range streamTypes(p, iface, "RecvMsg") {
+			if nt.Obj().Name() == name {
+				return true
+			}
+		}
+	}
+	return false
+}
+
 func pkgSuffixOf(nt *types.Named) string {
 	path := nt.Obj().Pkg().Path()
 	if path == core.ModulePath {
@@ -278,7 +330,70 @@ func constantInt64(v constant.Value) (int64, bool) {
 // canonical names. Idempotent; called once after loading. An identifier whose
 // role cannot be found keeps its real name (the rules then report
 // ANCHOR-MISSING where they need it).
+// theProg is the program under analysis (set by SetupRoles); used by helpers
+// that need the callers of a function.
+var theProg *core.Prog
+
+// callSitesOf lists the static calls of fn in library code.
+func callSitesOf(fn *ssa.Function) []*ssa.Call {
+	var out []*ssa.Call
+	if theProg == nil || fn == nil {
+		return nil
+	}
+	for _, g := range theProg.LibFuncs("") {
+		core.Instrs(g, func(in ssa.Instruction) {
+			if call, ok := in.(*ssa.Call); ok && call.Call.StaticCallee() == fn {
+				out = append(out, call)
+			}
+		})
+	}
+	return out
+}
+
+// isReceivedFrame: v is a frame that was just received: a result of a function
+// that receives from its channel parameter, a select's received value, or a
+// frame parameter to which every call site of the function hands such a frame
+// (the received frame handed to a step function).
+func isReceivedFrame(v ssa.Value, depth int) bool {
+	return core.OriginIs(v, func(o ssa.Value) bool {
+		if cr := core.ResultPart(o); cr != nil {
+			if st := core.InfoOf(&cr.Call).Static; st != nil && receivesFromParam(st) {
+				return true
+			}
+		}
+		if ex, ok := o.(*ssa.Extract); ok {
+			if _, isSel := ex.Tuple.(*ssa.Select); isSel {
+				return true
+			}
+		}
+		if u, ok := o.(*ssa.UnOp); ok && u.Op == token.ARROW {
+			return true
+		}
+		if par, ok := o.(*ssa.Parameter); ok && depth < 3 && core.NamedOf(par.Type()) == "frame" {
+			sites := callSitesOf(par.Parent())
+			if len(sites) == 0 {
+				return false
+			}
+			idx := -1
+			for i, pp := range par.Parent().Params {
+				if pp == par {
+					idx = i
+				}
+			}
+			for _, cs := range sites {
+				if idx < 0 || idx >= len(cs.Call.Args) || !isReceivedFrame(cs.Call.Args[idx], depth+1) {
+					return false
+				}
+			}
+			return true
+		}
+		return false
+	})
+}
+
 func SetupRoles(p *core.Prog) {
+	theProg = p
+	core.SetupParts(p)
 	core.FieldAlias = map[*types.Var]string{}
 	core.TypeAlias = map[*types.TypeName]string{}
 	core.FuncAlias = map[*types.Func]string{}
@@ -617,8 +732,25 @@ func mustCaller(direct func(*ssa.CallCommon) bool) func(ssa.Instruction) bool {
 
 // isHTTPFrameWriter: a function of httpgrpc that takes an io.Writer first,
 // marshals a message and writes it (the delimited-message writer).
+// ioParamIdx: the index of the parameter through which fn gets its stream: the
+// first parameter of the given io type within the first two positions (a
+// method of a carrier type — framing{codec}.write(w, …) — has its receiver in
+// front); -1 if there is none.
+func ioParamIdx(fn *ssa.Function, ts string) int {
+	if fn == nil {
+		return -1
+	}
+	for i := 0; i < 2 && i < len(fn.Params); i++ {
+		if core.TypeStr(fn.Params[i].Type()) == ts {
+			return i
+		}
+	}
+	return -1
+}
+
 func isHTTPFrameWriter(fn *ssa.Function) bool {
-	if fn == nil || fn.Blocks == nil || !core.PkgIs(fn, "httpgrpc") || len(fn.Params) < 3 || core.TypeStr(fn.Params[0].Type()) != "io.Writer" {
+	wi := ioParamIdx(fn, "io.Writer")
+	if fn == nil || fn.Blocks == nil || !core.PkgIs(fn, "httpgrpc") || wi < 0 || len(fn.Params) < wi+3 {
 		return false
 	}
 	// the encoding and the write may sit in step helpers of the package (marshalWithSize, writeAndFlush)
@@ -641,7 +773,7 @@ func isHTTPFrameWriter(fn *ssa.Function) bool {
 				}
 				if ci.Static != nil && core.PkgIs(ci.Static, "httpgrpc") && ci.Static.Signature.Recv() == nil && depth < 2 {
 					// only helpers that are not frame writers in their own right
-					if !(len(ci.Static.Params) >= 3 && core.TypeStr(ci.Static.Params[0].Type()) == "io.Writer") {
+					if wj := ioParamIdx(ci.Static, "io.Writer"); !(wj >= 0 && len(ci.Static.Params) >= wj+3) {
 						scan(ci.Static, depth+1)
 					}
 				}
@@ -662,7 +794,8 @@ func httpFrameWriteCall(call *ssa.Call) (ok bool, end int) {
 
 func httpFrameWriteCallDepth(call *ssa.Call, depth int) (bool, int) {
 	callee := call.Call.StaticCallee()
-	if callee == nil || callee.Blocks == nil || !core.PkgIs(callee, "httpgrpc") || len(call.Call.Args) < 3 || core.TypeStr(call.Call.Args[0].Type()) != "io.Writer" {
+	wi := ioParamIdx(callee, "io.Writer")
+	if callee == nil || callee.Blocks == nil || !core.PkgIs(callee, "httpgrpc") || wi < 0 || len(call.Call.Args) < wi+3 {
 		return false, -1
 	}
 	if isHTTPFrameWriter(callee) {
@@ -691,7 +824,7 @@ func httpFrameWriteCallDepth(call *ssa.Call, depth int) (bool, int) {
 	var inner []*ssa.Call
 	core.Instrs(callee, func(in ssa.Instruction) {
 		if c2, ok := in.(*ssa.Call); ok {
-			if isW, _ := httpFrameWriteCallDepth(c2, depth+1); isW && c2.Call.Args[0] == ssa.Value(callee.Params[0]) {
+			if isW, _ := httpFrameWriteCallDepth(c2, depth+1); isW && c2.Call.Args[ioParamIdx(c2.Call.StaticCallee(), "io.Writer")] == ssa.Value(callee.Params[wi]) {
 				inner = append(inner, c2)
 			}
 		}
